@@ -9,6 +9,6 @@ conf.instance.push(new_path="/repo/test_autofit/config", output_path=tempfile.mk
 d = json.loads(json.dumps(to_dict(af.Drawer(name="fit", total_draws=3))))
 try:
     from_dict(d)
-    raise AssertionError("reload worked (defect repaired?)")
+    print("no violation: the files can be read back (repaired in /repo)")
 except TypeError as e:
     print("VIOLATION: the identifier cannot be recomputed from the fit's files:", e)
